@@ -307,6 +307,19 @@ CallReturn(M, F) ==       \* the outermost value() returns to the driver: CallEn
                    xs |-> [i \in 1..(2 * P.nvars) |-> M.sv[i]], v |-> o.v, u |-> o.u])
   IN [M |-> M1, F |-> IF ix < Len(P.calls) THEN <<FCall(ix + 1)>> ELSE <<>>]
 
+(* an exception (v,u) escapes wait_for (F's top wait frame has already been popped): it reaches the driver, or
+   the body that made the synchronous call *)
+EscapeTo(M, F, waited, v, u) ==
+  LET below == Top(F) IN
+  IF below.f = "call"
+  THEN LET root == P.calls[below.a].root
+           M2 == Ev(M, [e |-> "CallEnd", t |-> root, a |-> M.active, k |-> Len(M.stack), b |-> Cardinality(M.sbat),
+                        xs |-> [i \in 1..(2 * P.nvars) |-> M.sv[i]], v |-> v, u |-> u])
+       IN [M |-> M2, F |-> IF below.a < Len(P.calls) THEN <<FCall(below.a + 1)>> ELSE <<>>]
+  ELSE LET t == below.a
+           M2 == Ev(M, [e |-> "SyncEnd", t |-> t, a |-> waited, v |-> v, u |-> u, b |-> M.active, k |-> Len(M.stack)])
+       IN BodyRaise(SegEndEv(M2, t, below.b, 6, Val("N", 0, <<>>)), F, t, v, u)
+
 StepM(M, F, choice) ==
   LET fr == Top(F) IN
   CASE fr.f = "call" ->
@@ -333,16 +346,7 @@ StepM(M, F, choice) ==
               \* runaway recursion: reset() and RuntimeError, which propagates to whoever called wait_for
               LET u == M.uidc + 1
                   M1 == [M EXCEPT !.stack = <<>>, !.sbat = {}, !.active = 0, !.uidc = u]
-                  F1 == Pop(F)
-                  below == Top(F1)
-              IN IF below.f = "call"
-                 THEN LET root == P.calls[below.a].root
-                          M2 == Ev(M1, [e |-> "CallEnd", t |-> root, a |-> M1.active, k |-> 0, b |-> 0,
-                                        xs |-> [i \in 1..(2 * P.nvars) |-> M1.sv[i]], v |-> VX(80000), u |-> u])
-                      IN [M |-> M2, F |-> IF below.a < Len(P.calls) THEN <<FCall(below.a + 1)>> ELSE <<>>]
-                 ELSE LET t == below.a
-                          M2 == Ev(M1, [e |-> "SyncEnd", t |-> t, a |-> fr.a, v |-> VX(80000), u |-> u, b |-> M1.active, k |-> 0])
-                      IN BodyRaise(SegEndEv(M2, t, below.b, 6, Val("N", 0, <<>>)), F1, t, VX(80000), u)
+              IN EscapeTo(M1, Pop(F), fr.a, VX(80000), u)
          ELSE LET f == M.stack[Len(M.stack)]
                   popped == [M EXCEPT !.stack = SubSeq(@, 1, Len(@) - 1)]
               IN IF IsDone(M, f) THEN [M |-> popped, F |-> F]
@@ -387,8 +391,11 @@ StepM(M, F, choice) ==
                   M1 == Prios(M, live)
                   M2 == Ev([M1 EXCEPT !.sbat = live \ {b}, !.round = @ + 1, !.sched = Append(@, M.bt[b].kind)], [e |-> "Before", b |-> b])
                   M3 == FlushBatch(M2, b, 1)
-                  M4 == Ev(M3, [e |-> "After", b |-> b])
-              IN [M |-> M4, F |-> SetTop(F, FWait(fr.a, fr.b, 1))]
+                  throws == P.kinds[M.bt[b].kind].flush = "throw"
+                  tu == M3.uidc + 1
+                  M4 == Ev(IF throws THEN [M3 EXCEPT !.uidc = tu] ELSE M3, [e |-> "After", b |-> b])
+              IN IF throws THEN EscapeTo(M4, Pop(F), fr.a, VX(31000 + M.bt[b].kind), tu)      \* flush() itself raised
+                 ELSE [M |-> M4, F |-> SetTop(F, FWait(fr.a, fr.b, 1))]
 
 (* ---------------- the specification ----------------------------------------------------------- *)
 RECURSIVE Feed(_, _, _, _)
